@@ -65,6 +65,12 @@ func newMgrStack(upstreams [][2]string, remote map[string][]string) *mgrStack {
 	for _, id := range ids {
 		eps := map[string]int{}
 		for _, e := range remote[id] {
+			// "<endpoint>:0": the node lists the endpoint with a zero count
+			// (nobody listening there), which is not an offer
+			if name, zero := strings.CutSuffix(e, ":0"); zero {
+				eps[name] = 0
+				continue
+			}
 			eps[e] = 1
 		}
 		st.cs.AddNode(&cluster.Node{ID: id, Status: cluster.NodeStatusActive, ProxyAddr: "p-" + id, AdminAddr: "a-" + id, Endpoints: eps})
@@ -126,6 +132,14 @@ func (st *mgrStack) consistent(truth map[string]int) (string, string) {
 	pub, bad := st.published()
 	if len(bad) > 0 {
 		return "published-count-not-a-number", fmt.Sprintf("published entries %v", bad)
+	}
+	// an endpoint nobody listens on is not listed at all - not with a zero count
+	for where, m := range map[string]map[string]int{"routing table": rt, "published gossip entries": pub, "registry": reg} {
+		for ep, n := range m {
+			if n <= 0 {
+				return "endpoint-listed-without-upstream", fmt.Sprintf("%s lists endpoint %s with count %d although no upstream is connected for it", where, ep, n)
+			}
+		}
 	}
 	a, b, c, d := countsStr(truth), countsStr(reg), countsStr(rt), countsStr(pub)
 	if a != b {
